@@ -587,6 +587,16 @@ def _len(interp, args, kwargs, node):
         ov = getattr(interp, "len_override", None)
         if ov and v.var in ov:
             return ov[v.var]
+        if isinstance(v.var, tuple) and len(v.var) == 2 and v.var[0] in ("argmin-len", "argmax-len"):
+            sg = v.var[1]
+            if sg and all(x[0] == "one" for x in sg) and len({x[1] for x in sg}) == 1:
+                d = sg[0][1]  # all members have the same size
+                if isinstance(d, tuple) and d[:1] == ("c",):
+                    return LinV(F.lin_const(d[1]))
+                if isinstance(d, tuple) and d[:1] == ("lin",):
+                    return LinV(d[1])
+                return LinV(F.lin_term(d))
+            return LinV(F.lin_term((v.var[0][3:6], v.var[1])))  # the size of a member of least / greatest size
         return LinV(F.lin_term(("len", v.var)))
     if isinstance(v, Sym):
         return LinV(F.lin_term(("len", v.label)))
@@ -749,6 +759,21 @@ def _agg(name):
             ls = [interp.as_lin(a) for a in vals]
             return LinV(F.lin_term((name, tuple(desc(a) for a in vals))))
         segs = interp.segments(args[0], node)
+        keyf = kwargs.get("key")
+        if isinstance(keyf, ExtV) and canonical_ext(keyf.name) == "builtins.len" and segs:
+            # min(xs, key=len): some member of least size; all that is known of it is its size, min(len(x) for x in xs)
+            dl = []
+            for s_ in segs:
+                if s_[0] == "one":
+                    dl.append(("one", desc(_len(interp, [s_[1]], {}, node))))
+                elif s_[0] == "each":
+                    dl.append(("each", s_[1], s_[2], s_[3], desc(_len(interp, [s_[4]], {}, node))))
+                else:
+                    dl = None
+                    break
+            if dl is not None:
+                interp.log("aggregate", node, how=name + "-by-len", segs=tuple(dl), default=kwargs.get("default"))
+                return ElemV((f"arg{name}-len", tuple(dl)), "set")
         if all(s[0] == "one" for s in segs) and segs and all(isinstance(s[1], Const) for s in segs):
             return Const((min if name == "min" else max)(s[1].value for s in segs))
         if not segs and "default" in kwargs:
